@@ -417,7 +417,9 @@ class C05(Prop):
             n += 1
             hist = [self.history_step(rng, ctx) for _ in range(rng.randint(0, 4))]
             final = {'src': clean(gen.any_source(rng, ctx.repo)), 'safeMode': rng.choice([None, 0, 1, 3, 9, 15]),
-                     'reset': rng.choice([True, True, 'true']), 'htmlReplacement': rng.choice([None, None, 'X']), 'callback': True}
+                     'reset': rng.choice([True, True, 'true']), 'htmlReplacement': rng.choice([None, None, 'X']),
+                     # without a callback of its own the call reports to nobody (not to a callback of the history either)
+                     'callback': rng.random() < 0.7}
             yield {'history': hist, 'final': final, 'fresh_interpreter': n % (20 if ctx.tier == 'quick' else 40) == 0}
 
     def execute(self, case, ctx, res):
